@@ -20,7 +20,7 @@ RULE = (
     "heavy hitters; log8/log16 with small max_count) with adds and merges whose sums land within +-3 of the ceiling from below and beyond, "
     "repeated after saturation; log draws planted as 0.0 (always advance) or 1-2^-53 (never). Oracle after every step: no count-min estimate of "
     "any universe key decreases; an estimate at the ceiling stays at the ceiling; a saturated log estimate decodes to max_count (1e-6); a "
-    "heavy-hitter key that is alone in its cell in some row has hh[key] == min(true, 2^32-1) and never decreases; merge chains that push n_added of linear sketches beyond 2^64 (24 rounds of mutual merges, or 66 self-merges - after which the 64-bit counter reads exactly 0 - after a saturating add) keep every estimate; an add with a multiplicity of 2^63-1 .. 2^64-1 on a log sketch (max_count <= 10^6) leaves the key's smallest counter at the ceiling. "
+    "heavy-hitter key that is alone in its cell in some row has hh[key] == min(true, 2^32-1) and never decreases; merge chains that push n_added of linear sketches beyond 2^64 (24 rounds of mutual merges, or 66 self-merges - after which the 64-bit counter reads exactly 0 - after a saturating add) keep every estimate; a key at the ceiling that arrives again as a shingle through add_ngram stays there; an add with a multiplicity of 2^63-1 .. 2^64-1 on a log sketch (max_count <= 10^6) leaves the key's smallest counter at the ceiling. "
     "Non-trivial: a counter within 3 of its ceiling is touched, or an accepted configuration with non-default num_reserved. Distinct = "
     "distinct configuration / distinct (configuration, step list)."
 )
@@ -223,6 +223,16 @@ def _shard(arg):
             step["draws"] = [0.0]
         self.do(step)
 
+    @rule(i=machines.SK, ki=machines.IDX, sep=st.sampled_from([b"", b"x", b"\0"]))
+    def ngram_at_ceiling(self, i, ki, sep):
+        """a key is driven to the ceiling, then arrives again as a shingle of a longer text through add_ngram"""
+        k = self.key(ki)
+        if not k or self.world.kind not in ("linear", "hh"):
+            return
+        i = i % self.N
+        self.do({"op": "add", "i": i, "k": k, "v": CEIL})
+        self.do({"op": "add_ngram", "i": i, "k": k + sep + k, "n": len(k)})
+
     @rule(i=machines.SK, ki=machines.IDX, t=st.sampled_from([12, 24, 30]))
     def pump_n_added(self, i, ki, t):
         """drive n_added beyond 2^53 and beyond 2^64 (where the 64-bit bookkeeping counter wraps) the legitimate way: a
@@ -243,7 +253,7 @@ def _shard(arg):
             self.do({"op": "merge", "i": j, "j": i})
 
     M = machines.make_machine(
-        "C18Machine", CeilingChecker, rec, holder, SELF_MERGE=True, CFG=CFG, N=2, NGRAM=False, MAXKEY=6, DRAWS=None, pump_n_added=pump_n_added,
+        "C18Machine", CeilingChecker, rec, holder, SELF_MERGE=True, CFG=CFG, N=2, NGRAM=False, MAXKEY=6, DRAWS=None, pump_n_added=pump_n_added, ngram_at_ceiling=ngram_at_ceiling,
         add=add, update_dict=update_dict, update_list=update_list, add_huge_log=machines.huge_log_rule(),
     )
     common.run_machine(M, common.derive_seed(seed, "C18", shard), n_examples, steps, holder, rec, retry=lambda c_: machines.replay_trace(c_, CeilingChecker))
